@@ -143,7 +143,7 @@ impl Check for C08 {
     }
     fn rule(&self) -> String {
         "content profile over rfsm-expression (75%) and ecmascript (25%): nested if/elseif/else, foreach (item/index), assign, raise, log, script, <send> to #_internal inside onentry, onexit, transition, <initial> and history-default bodies, an observation mark between all elements; \
-         at most one injected failing evaluation per block (if / elseif condition, assign expr, assign to an undeclared location, log expr, script, foreach array error / not a collection, send eventexpr / targetexpr / delayexpr / namelist). \
+         at most one injected failing evaluation per block (if / elseif condition, assign expr, assign to an undeclared location, log expr, script, foreach array error / not a collection, send eventexpr / targetexpr / delayexpr / namelist; or such a failing element nested in an executed then / else / elseif branch or foreach body, where it must also abort the rest of the enclosing blocks). \
          Oracle: reference content interpreter. The trace with error events projected out must equal the reference trace (either allowed continuation of an erroring if-condition), and a macrostep dequeues error.execution iff the reference raised one there. \
          Non-trivial = nesting depth >= 2 with an elseif or foreach, or an injected error that is not the last element of its block; distinct = hash of document + events + mode."
             .into()
